@@ -4,10 +4,10 @@ from __future__ import annotations
 
 import ast
 
-from core.guards import FALSE, TRUE, atom, atoms_of, equivalent, evaluate, f_and, f_not, f_or, implies, satisfiable
+from core.guards import TRUE, atom, atoms_of, equivalent, evaluate, f_and, f_not, implies
 from core.loader import AnalysisError, norm, parent
 
-from .c17_model import Model, const_str, parse_atom, strip_wrappers
+from .c17_model import Model, parse_atom, strip_wrappers
 from .c17_view import _walk_own
 from .common import cfg_of
 
